@@ -20,6 +20,9 @@ type Env struct {
 	Keys []crypto.PrivKey // funded: genesis, TestPrivkeyList[0], [2], [3]
 }
 
+// ExtraRegister, when set, registers additional executors before the node starts.
+var ExtraRegister func(cfg *types.Chain33Config)
+
 func AddrOf(k crypto.PrivKey) string {
 	return address.PubKeyToAddr(address.DefaultID, k.PubKey().Bytes())
 }
@@ -32,6 +35,9 @@ func New(dir string, opt func(o *node.Options)) (*Env, error) {
 	}
 	cfg := node.NewConfig(o)
 	vexec.Register(cfg)
+	if ExtraRegister != nil {
+		ExtraRegister(cfg)
+	}
 	n := node.NewWithConfig(cfg, o)
 	e := &Env{N: n, Cfg: cfg}
 	l := util.TestPrivkeyList
